@@ -360,6 +360,9 @@ func (c *CheckRun) runFallback() {
 			}
 			added += len(all)
 			for _, v := range all {
+				if strings.HasPrefix(inst.Harness, "H_C13_entropy") {
+					v["stress"] = 400 // native only: a long call history after the symbolic part
+				}
 				vecs = append(vecs, &Vector{Harness: inst.Harness, Args: inst.Args, Vals: v, Property: c.Spec.ID, Kind: "fallback-witness"})
 				owners = append(owners, inst)
 			}
